@@ -23,13 +23,39 @@ SITE = {
     "tsolvem": "include/TFEL/Math/LU/TinyMatrixSolve.ixx:TinyMatrixSolve<N>::exe(tmatrix<N,M>)",
     "tinv": "include/TFEL/Math/Matrix/TinyMatrixInvert.ixx:TinyMatrixInvert::exe",
     "qr": "include/TFEL/Math/QR/QRDecomp.ixx:QRDecomp::exe+tq_product+back_substitute",
+    # variants of the same entry points (harness op -> site); the model is asked the base op of VARIANTS
+    "tsolvemx": "include/TFEL/Math/LU/TinyMatrixSolve.ixx:TinyMatrixSolve<N,double,true>::exe(tmatrix<N,M>)",
+    "tsolved": "include/TFEL/Math/TinyMatrixSolve.hxx:TinyMatrixSolve<N,double,false>::exe(default eps)",
+    "tsolvexd": "include/TFEL/Math/TinyMatrixSolve.hxx:TinyMatrixSolve<N,double,true>::exe(default eps)",
+    "tsolvemd": "include/TFEL/Math/TinyMatrixSolve.hxx:TinyMatrixSolve<N>::exe(tmatrix<N,M>, default eps)",
+    "tsolvec": "include/TFEL/Math/LU/TinyMatrixSolve.ixx:TinyMatrixSolve<N,double,false,true>::exe(runtime checks)",
+    "tsolvecx": "include/TFEL/Math/LU/TinyMatrixSolve.ixx:TinyMatrixSolve<N,double,true,true>::exe(runtime checks)",
+    "tsolvemc": "include/TFEL/Math/LU/TinyMatrixSolve.ixx:TinyMatrixSolve<N,double,false,true>::exe(tmatrix<N,M>, runtime checks)",
+    "lutc": "include/TFEL/Math/LU/LUDecomp.ixx:LUDecomp<false,true>::exe(tmatrix,TinyPermutation)",
+    "luc": "include/TFEL/Math/LU/LUDecomp.ixx:LUDecomp<false,true>::exe(matrix,Permutation)",
+    "lux": "include/TFEL/Math/LU/LUDecomp.ixx:LUDecomp<true,false>::exe(matrix,Permutation)",
+    "luxc": "include/TFEL/Math/LU/LUDecomp.ixx:LUDecomp<true,true>::exe(matrix,Permutation)",
+    "lur": "include/TFEL/Math/LU/Permutation.ixx:Permutation::resize+LUDecomp::exe",
+    "lusolve4": "include/TFEL/Math/LUSolve.hxx:LUSolve::exe(m,b,x,p) with a reused permutation",
+    "lubs": "include/TFEL/Math/LUSolve.hxx:LUDecomp<true>::exe(m,p,eps)+LUSolve::back_substitute",
+    "qrd": "include/TFEL/Math/QR/QRDecomp.ixx:QRDecomp::back_substitute(default eps)",
+    "tperm": "include/TFEL/Math/LU/TinyPermutation.ixx:TinyPermutation::swap+exe",
+}
+# harness op -> (base op sent to the model, eps forced to the default 100*DBL_MIN, largest fixed N or None)
+NCHK = 5
+VARIANTS = {
+    "tsolvemx": ("tsolvem", False, None), "tsolved": ("tsolve", True, None), "tsolvexd": ("tsolve", True, None),
+    "tsolvemd": ("tsolvem", True, None), "tsolvec": ("tsolve", False, NCHK), "tsolvecx": ("tsolve", False, NCHK),
+    "tsolvemc": ("tsolvem", False, NCHK), "lutc": ("lut", False, NCHK),
+    "luc": ("lu", False, None), "lux": ("lu", False, None), "luxc": ("lu", False, None), "lur": ("lu", False, None),
+    "lusolve4": ("lusolve", True, None), "lubs": ("lusolve", False, None), "qrd": ("qr", True, None),
 }
 # harness parts (first N, last N, runtime-sized entry points).  The fixed-size entry points share one
 # template for every N >= 4, so the quick tier instantiates N in {1..6, 8, 12} only (the runtime-sized
 # entry points run every n = 1..12 in both tiers); the thorough tier instantiates every N = 1..12.
-PARTS_THOROUGH = [(1, 5, True), (6, 8, False), (9, 10, False), (11, 12, False)]
-PARTS_QUICK = [(1, 4, True), (5, 6, False), (8, 8, False), (12, 12, False)]
-DYNAMIC_OPS = ("lu", "lusolve", "qr")
+PARTS_THOROUGH = [(1, 5, False), (6, 8, False), (9, 10, False), (11, 12, True)]
+PARTS_QUICK = [(1, 4, False), (5, 6, False), (8, 8, True), (12, 12, False)]
+DYNAMIC_OPS = ("lu", "lusolve", "qr", "luc", "lux", "luxc", "lur", "lusolve4", "lubs", "qrd")
 TOL = Fraction(1, 2 ** 30)   # relative backward error accepted by the property predicate (differing lines only)
 
 
@@ -178,15 +204,18 @@ def flat(a):
     return [v for row in a for v in row]
 
 
-def make_request(rng, op, n):
+def make_request(rng, op, n, hop=None, default_eps=False):
+    """op: entry point as the model knows it; hop: the variant of it asked to the harness (see VARIANTS)"""
     kind, a = gen_matrix(rng, n)
     eps = gen_eps(rng)
-    req = {"op": op, "n": n, "kind": kind, "a": a, "eps": eps}
+    if default_eps:
+        eps = EPS0                           # the variant under test uses the default argument
+    req = {"op": op, "hop": hop or op, "n": n, "kind": kind, "a": a, "eps": eps}
     if op in ("lu", "lut"):
         words = [eps] + flat(a)
         head = "%s %d" % (op, n)
     elif op in ("lusolve", "tsolve", "tsolvex", "qr"):
-        if op == "lusolve":
+        if op == "lusolve" and hop != "lubs":
             eps = req["eps"] = EPS0          # LUSolve::exe has no eps parameter
         if op == "qr" and eps == 0.0:
             eps = req["eps"] = EPS0
@@ -205,8 +234,24 @@ def make_request(rng, op, n):
         req["b"] = [[1.0 if i == k else 0.0 for i in range(n)] for k in range(n)]
         words = [eps, EPS0] + flat(a)
         head = "%s %d" % (op, n)
-    req["line"] = head + " " + " ".join(hx(w) for w in words)
+    req["mline"] = head + " " + " ".join(hx(w) for w in words)      # for the model
+    req["line"] = req["hop"] + req["mline"][len(op):]               # for the harness
     return req
+
+
+def make_perm_request(rng, n):
+    """TinyPermutation<N>: k swaps then exe(v); the reference is computed here (v_out[i] = v_in[p[i]])"""
+    k = rng.choice([0, 1, 1, 2, 3, 5])
+    swaps = [(rng.randrange(n), rng.randrange(n)) for _ in range(k)]
+    v = [float(rng.randint(-9, 9)) + i / 16.0 for i in range(n)]
+    p = list(range(n))
+    for (i, j) in swaps:
+        p[i], p[j] = p[j], p[i]
+    # is_identity is a flag: any call to swap clears it (even swap(i,i)), as LUDecomp relies on
+    exp = "ok %d %s %s" % (1 if k == 0 else 0, " ".join(str(t) for t in p), " ".join(hx(v[p[i]]) for i in range(n)))
+    words = [float(k)] + [float(t) for sw in swaps for t in sw] + v
+    return {"op": "tperm", "hop": "tperm", "n": n, "kind": "perm", "a": [], "eps": EPS0, "swaps": swaps, "v": v,
+            "expected": exp, "line": "tperm %d " % n + " ".join(hx(w) for w in words), "mline": None}
 
 
 # ---------------------------------------------------------------- the property, evaluated on an answer
@@ -281,6 +326,10 @@ def judge(req, impl, model):
     exactly nonsingular and the verified algorithm solves it."""
     op = req["op"]
     a = req["a"]
+    if op == "tperm":
+        # TinyPermutation::exe is not called by any solver: a deviation is a broken obligation of the anchored
+        # file, not a failing input of the property (reported as correspondence failure)
+        return True, ""
     ok_i = impl.startswith("ok")
     if not (ok_i or impl.startswith("fail")):
         return False, "no answer (%s)" % impl[:40]
@@ -311,7 +360,7 @@ def branch_class(req, model):
     if req["op"] in ("lu", "lut") and f and f[0] == "ok":
         n = req["n"]
         piv = "id" if [int(t) for t in f[2:2 + n]] == list(range(n)) else "perm"
-    return (req["op"], req["n"], f[0] if f else "?", piv, req["kind"])
+    return (req["hop"], req["n"], f[0] if f else "?", piv, req["kind"])
 
 
 def run(ck):
@@ -339,11 +388,21 @@ def run(ck):
         for n in (range(1, 13) if op in DYNAMIC_OPS else sizes_fixed):
             for _ in range(per if n > 3 else 2 * per):
                 reqs.append(make_request(rng, op, n))
-    text = "".join(r["line"] + "\n" for r in reqs)
+    # variants of the entry points (other template flags, default arguments, reused / resized permutations):
+    # generated AFTER the base requests so that the base corpus of a seed does not depend on them
+    per_v = 24 if ck.quick else 300
+    for hop, (base, deflt, nmax) in VARIANTS.items():
+        for n in (range(1, 13) if hop in DYNAMIC_OPS else [k for k in sizes_fixed if nmax is None or k <= nmax]):
+            for _ in range(per_v if n > 3 else 2 * per_v):
+                reqs.append(make_request(rng, base, n, hop, deflt))
+    for n in sizes_fixed:
+        for _ in range(12 if ck.quick else 100):
+            reqs.append(make_perm_request(rng, n))
+    text = "".join(r["mline"] + "\n" for r in reqs if r["mline"] is not None)
     impl = ["missing"] * len(reqs)
     for (lo, hi, dyn) in PARTS:
         mine = [i for i, r in enumerate(reqs)
-                if (r["op"] in DYNAMIC_OPS and dyn) or (r["op"] not in DYNAMIC_OPS and lo <= r["n"] <= hi)]
+                if (r["hop"] in DYNAMIC_OPS and dyn) or (r["hop"] not in DYNAMIC_OPS and lo <= r["n"] <= hi)]
         pi = ck.run([harness["c07h_%d_%d" % (lo, hi)]], input="".join(reqs[i]["line"] + "\n" for i in mine), timeout=3000)
         if pi.returncode != 0:
             ck.violation("harness-crash", "the implementation harness aborted (sanitizer or crash)",
@@ -351,7 +410,9 @@ def run(ck):
         for i, a in zip(mine, pi.stdout.splitlines()):
             impl[i] = a
     pm = ck.run([driver], input=text, timeout=3000)
-    model = pm.stdout.splitlines()
+    mit = iter(pm.stdout.splitlines())
+    # reference answers: the Lean model (base op), or the python reference of TinyPermutation
+    model = [r["expected"] if r["mline"] is None else next(mit, "missing") for r in reqs]
     classes = {}
     outcomes = {}
     kinds = {}
@@ -362,26 +423,26 @@ def run(ck):
         m = model[i] if i < len(model) else "missing"
         cl = branch_class(r, m)
         classes[cl] = classes.get(cl, 0) + 1
-        o = "%s:%s" % (r["op"], m.split()[0] if m else "?")
+        o = "%s:%s" % (r["hop"], m.split()[0] if m else "?")
         outcomes[o] = outcomes.get(o, 0) + 1
         kinds[r["kind"]] = kinds.get(r["kind"], 0) + 1
         if a == m:
             continue
         disagreements += 1
         holds, why = judge(r, a, m)
-        key = "%s:%s" % (SITE[r["op"]], "property" if not holds else "value")
+        key = "%s:%s" % (SITE[r["hop"]], "property" if not holds else "value")
         if key in reported:
             continue
         reported.add(key)
-        rep = {"function": r["op"], "site": SITE[r["op"]], "n": r["n"], "matrix_kind": r["kind"],
+        rep = {"function": r["hop"], "model_function": r["op"], "site": SITE[r["hop"]], "n": r["n"], "matrix_kind": r["kind"],
                "eps": r["eps"], "A": r["a"], "b": r.get("b"), "request_line": r["line"],
                "implementation": a[:4000], "model": m[:4000],
                "implementation_values": [unhx(t) for t in a.split()[1:] if len(t) == 16 or t == "nan"][:200], "exact_determinant_is_zero": det_exact(r["a"]) == 0,
                "property_holds_on_implementation_output": holds, "reason": why}
         if not holds:
-            ck.violation(key, "%s n=%d eps=%g on a %s matrix: %s" % (r["op"], r["n"], r["eps"], r["kind"], why), rep, True)
+            ck.violation(key, "%s n=%d eps=%g on a %s matrix: %s" % (r["hop"], r["n"], r["eps"], r["kind"], why), rep, True)
         else:
-            ck.violation("corr:" + key, "correspondence Model.lean vs %s broken (n=%d, %s matrix); the implementation's answer still satisfies the property" % (SITE[r["op"]], r["n"], r["kind"]), rep, False)
+            ck.violation("corr:" + key, "correspondence Model.lean vs %s broken (n=%d, %s matrix); the implementation's answer still satisfies the property" % (SITE[r["hop"]], r["n"], r["kind"]), rep, False)
     ck.assumptions += [
         "M: Model.lean is tied to the C++ templates by differential execution on double, compared bit for bit (packed LU, permutation, sign, solutions, success flag)",
         "floating point: the theorems are about the algorithm over an ordered field; 'residual bounded by conditioning x machine precision' is not modelled (only the exact-arithmetic statement residual = 0 is proved)",
@@ -396,7 +457,7 @@ def run(ck):
     return ck.finish({
         "evaluations": len(reqs), "distinct_nontrivial": n_nontrivial,
         "sizes_fixed_entry_points": sizes_fixed,
-        "rule": "requests = seeded matrices n=1..12 (fixed-size entry points: the sizes listed in sizes_fixed_entry_points) of 14 kinds (integer, dyadic, dominant, permuted, structurally singular column/row, rank deficient, swap-threshold boundary, Hilbert-like, gaussian, badly scaled, tiny pivot column, zero diagonal) x eps in {100*DBL_MIN, 0.5, 0.25, 1e-6, 1, 2^-20, 0} x 8 entry points; distinct = (entry point, n, ok/fail, identity/non-identity permutation, matrix kind) classes observed; every class runs the full elimination",
+        "rule": "requests = seeded matrices n=1..12 (fixed-size entry points: the sizes listed in sizes_fixed_entry_points) of 14 kinds (integer, dyadic, dominant, permuted, structurally singular column/row, rank deficient, swap-threshold boundary, Hilbert-like, gaussian, badly scaled, tiny pivot column, zero diagonal) x eps in {100*DBL_MIN, 0.5, 0.25, 1e-6, 1, 2^-20, 0} x 8 entry points, then the same generators on 15 variants of them (exceptions x matrix rhs, default eps arguments, perform_runtime_checks=true for N<=5, LUDecomp<true|false,true|false>, resized / reused Permutation, LUDecomp+LUSolve::back_substitute, QR default-eps overload) and TinyPermutation swap/exe against a python reference; distinct = (entry point, n, ok/fail, identity/non-identity permutation, matrix kind) classes observed; every class runs the full elimination",
         "exhaustive": False, "disagreements": disagreements,
         "traces_validated_against_impl": len(reqs),
         "outcome_histogram": outcomes, "matrix_kind_histogram": kinds,
